@@ -22,6 +22,7 @@ func checkC19(c *chk.Ctx) {
 		"R19a the ensemble selector only succeeds when the number of distinct selected ids equals the replication factor, and returns exactly the ids it added to the selected set",
 		"R19b the candidate set only shrinks: it is reassigned to Candidates - selected or to the anti-affinity filter's result; the load selector returns only members of the candidate set, the final selector an element of it",
 		"R19c a swap proposes one replacement: the selected set is the ensemble minus the node being replaced, a target equal to that node is refused, and the new ensemble drops exactly the old id and appends the new one once",
+		"R19e the anti-affinity filter composes its rules: the set carried from one rule to the next is combined with (and only replaced by values derived from) the running result, never rebuilt from the unfiltered candidates",
 		"R19d the per-server selector chain starts with the anti-affinity selector and only returns ids produced by the chain (no path around it)",
 	}
 	c.NotDec = []string{
@@ -32,6 +33,7 @@ func checkC19(c *chk.Ctx) {
 	ruleR19b(h)
 	ruleR19c(h)
 	ruleR19d(h)
+	ruleR19e(h)
 }
 
 func isSetMethod(c *ssa.CallCommon, name string) bool {
@@ -444,5 +446,94 @@ func ruleR19d(h *H) {
 	}
 	if !found {
 		h.Anchor(rule, "the selector chain literal")
+	}
+}
+
+// ruleR19e: in the anti-affinity filter the candidate set that survives is carried around
+// the loop over the rules. Every value that replaces the carried set must be derived from
+// the carried set itself (Intersection with it) or be a freshly created set that is then
+// filled; and at least one replacement must be derived from it. A replacement computed
+// from anything else (e.g. the context's unfiltered candidates) silently drops the rules
+// evaluated before.
+func ruleR19e(h *H) {
+	const rule = "R19e"
+	h.Rule(rule, "K9", "the loop-carried result set of the anti-affinity filter is only replaced by fresh sets or by values that depend on the carried set; some replacement depends on it", 1)
+	n := 0
+	for _, w := range h.P.FieldWrites("coordinator/selectors/single", "Context", "Candidates") {
+		if ir.RelPkg(ir.PkgPathOf(w.Fn)) != "coordinator/selectors/single" || w.Val == nil {
+			continue
+		}
+		v := ir.Canon(w.Val)
+		if call, ok := v.(*ssa.Call); ok && isSetMethod(call.Common(), "Difference") {
+			continue
+		}
+		root, isPhi := v.(*ssa.Phi)
+		if !isPhi {
+			continue
+		}
+		n++
+		h.Fn(ir.FuncName(w.Fn))
+		web := map[*ssa.Phi]bool{}
+		var entries []ssa.Value
+		seenE := map[ssa.Value]bool{}
+		var walk func(p *ssa.Phi)
+		walk = func(p *ssa.Phi) {
+			if web[p] {
+				return
+			}
+			web[p] = true
+			for _, e := range p.Edges {
+				c := ir.Canon(e)
+				if q, ok := c.(*ssa.Phi); ok {
+					walk(q)
+				} else if !seenE[c] {
+					seenE[c] = true
+					entries = append(entries, c)
+				}
+			}
+		}
+		walk(root)
+		inWeb := func(x ssa.Value) bool {
+			p, ok := x.(*ssa.Phi)
+			return ok && web[p]
+		}
+		isFresh := func(x ssa.Value) bool {
+			c, ok := x.(*ssa.Call)
+			if !ok {
+				return false
+			}
+			f := c.Call.StaticCallee()
+			if f == nil {
+				return false
+			}
+			o := f
+			if f.Origin() != nil {
+				o = f.Origin()
+			}
+			return strings.HasPrefix(f.Name(), "New") && o.Pkg != nil && o.Pkg.Pkg.Path() == setPkg
+		}
+		name := "anti-affinity result set in " + ir.FuncName(w.Fn)
+		combined := 0
+		bad := ""
+		for _, e := range entries {
+			switch {
+			case isFresh(e):
+			case ir.DependsOn(e, inWeb):
+				combined++
+			default:
+				if in, ok := e.(ssa.Instruction); ok {
+					bad = "at " + h.pos(in) + " the carried set is replaced by " + ir.Describe(e) + ", which is not derived from the result of the rules evaluated so far: those rules are dropped"
+				} else {
+					bad = "the carried set is replaced by " + ir.Describe(e) + ", which is not derived from the result of the rules evaluated so far"
+				}
+			}
+		}
+		if bad == "" && combined == 0 {
+			bad = "the result of a rule is never combined with the result of the previous rules: only the last rule is enforced"
+		}
+		h.Verdict(bad == "", rule, name, h.pos(w.Instr), fmt.Sprintf("%d replacement(s) derived from the running result, the others are fresh sets", combined), bad)
+	}
+	if n == 0 {
+		h.Anchor(rule, "the loop-carried result set of the anti-affinity filter")
 	}
 }
